@@ -34,3 +34,14 @@ contract(
         "spans-at-least-one-line-and-stays-inside-the-source": "result[1] >= 1 and result[2] + result[1] <= len(lines)"},
     from_property="behaves exactly as if the user had wrapped each segment in ![...] by hand ... across backslash continuations (of any number of physical lines)",
 )
+
+
+# ---- the paren test that ends a subprocess token window -------------------------------------------------------------------------
+TOK = Rec("tok", type=Str)
+contract(
+    TL + "_is_not_lparen_and_rparen", "C03", params=dict(lparens=Seq(Str), rtok=TOK), returns=Bool,
+    ensures={"a-closing-paren-while-ANY-open-bracket-on-the-stack-is-not-a-plain-LPAREN":
+             "result == (rtok.type == 'RPAREN' and exists(lambda j: lparens[j] != 'LPAREN', 0, len(lparens)))"},
+    from_property="words ... `@()`, `$()` ... (a `)` belongs to the command while an `@(` / `$(` / `![` opened anywhere before it is still open - not only the innermost one, "
+                  "so `@(str(x))` followed by a chain operator is still one word)",
+)
